@@ -67,6 +67,10 @@ func isRecvField(e *an.Expr, name string) bool {
 }
 
 func runC04(c *Ctx) {
+	// "all other content is unchanged": the builder writes nothing but the RA under construction, and the
+	// options plugins have produced are not rewritten afterwards (shared rules R-C01-4, R-C16-5)
+	c01Purity(c)
+	c16OnlyPluginsWriteLifetimes(c)
 	ra := c.needMethod("R-C04-1", "internal/config", "Interface", "RouterAdvertisement")
 	if ra == nil {
 		return
